@@ -8,9 +8,9 @@ import random
 
 from vf import core
 
-THEOREMS = ["hp_safe", "hp_use_live", "hp_binary_search_correct", "hp_scan_partition",
-            "hp_reclaim_once", "hp_bounded_garbage", "hp_threshold_ok", "hp_plist_in_bounds",
-            "hp_scan_progress_refuted"]
+THEOREMS = ["hp_safe", "hp_validated", "hp_gc_is_gc_list", "hp_use_live", "hp_binary_search_correct",
+            "hp_scan_partition", "hp_reclaim_once", "hp_bounded_garbage", "hp_threshold_ok",
+            "hp_threshold_exact_refuted", "hp_plist_in_bounds"]
 JOIN, PROTECT, CLEAR, SWAP, USE, SCAN = 1, 2, 3, 4, 5, 6
 NODE = 1000
 
@@ -109,10 +109,11 @@ def monitor(case, tr, raw):
         if kind == 939:
             free.discard(loc)
             continue
-        if loc == 0 and kind == 73:
+        cur_op = progs[t][opidx_of(progs, opidx, t)][0] if progs[t] else 0
+        if loc == 0 and kind // 10 == 7:
             records.insert(0, val)
             continue
-        if loc == 0 and kind == 25:                         # scan starts: head read
+        if loc == 0 and kind // 10 == 2 and cur_op != JOIN:  # scan starts: head read
             must_scan.pop(t, None)
             lst = records[records.index(val):] if val in records else []
             scan[t] = {"head": val, "expect": set(100 * r + 10 + i for r in lst for i in range(K)),
@@ -120,12 +121,11 @@ def monitor(case, tr, raw):
                        "nrec": len(lst), "last": None}
             continue
         if loc >= 2000:
-            if kind == 9 and val != 1:
+            if kind // 10 in (0, 2) and val != 1:
                 return "validated node %d used after it was reclaimed (payload %d)" % (loc - 2000 + NODE, val)
             continue
         if 10 <= loc < 100:
-            op = progs[t][opidx_of(progs, opidx, t)]
-            if kind == 22 and t in pending:
+            if kind // 10 == 2 and t in pending:
                 sl, n = pending.pop(t)
                 if val == n and n != 0:
                     validated[sl] = n
@@ -135,21 +135,21 @@ def monitor(case, tr, raw):
         if loc >= 100:
             r, off = divmod(loc, 100)
             if off >= 10:
-                if kind == 19:
+                if kind // 10 in (1, 3):
                     validated.pop(loc, None)
                     if r == t + 1:
                         pending[t] = (loc, val)
-                elif kind == 9 and t in scan:
+                elif kind // 10 in (0, 2) and t in scan:
                     scan[t]["expect"].discard(loc)
                     if val:
                         scan[t]["snap"].add(val)
             elif off == 1:
-                if kind in (25, 55) and val > 2 * K * max(1, len(records)):
+                if kind // 10 in (2, 5) and val > 2 * K * max(1, len(records)):
                     return "retire_threshold %d of record %d exceeds 2*N*K = %d" % (val, r, 2 * K * len(records))
-                if kind == 25 and r == t + 1 and t not in scan:
+                if kind // 10 == 2 and r == t + 1 and t not in scan and cur_op == SWAP:
                     if len(retired[t]) >= val:
                         must_scan[t] = (len(retired[t]), val)
-            elif off == 0 and kind == 9 and t in scan and val == 0:
+            elif off == 0 and kind // 10 in (0, 2) and t in scan and val == 0:
                 sc = scan[t]
                 sc["done"] = True
                 if sc["expect"]:
